@@ -125,6 +125,12 @@ def openStore (file : Bytes) : Option StoreFile :=
         (openSkipIndex (body.drop offset)).map fun idx =>
           { data := body.take offset, index := idx, decompId := id.toNat, version := version }
 
+/-- the end offset of a document: the next start offset if there is one -/
+def endOffset (next : Option (Nat × Bytes)) (dflt : Nat) : Nat :=
+  match next with
+  | some (e, _) => e
+  | none => dflt
+
 /-- `block_read_index`: start and end of document `pos` inside a decompressed block -/
 def blockReadIndex (block : Bytes) (pos : Nat) : Option (Nat × Nat) :=
   -- `block.len() - size_of_u32` underflows on a block shorter than 4 bytes
@@ -136,10 +142,8 @@ def blockReadIndex (block : Bytes) (pos : Nat) : Option (Nat × Nat) :=
   let indexStart := block.length - (indexLen + 1) * 4
   let index := (block.drop indexStart).take (indexLen * 4)
   (readLE 4 (index.drop (pos * 4))).map fun (s, _) =>
-    let e := match readLE 4 (index.drop ((pos + 1) * 4)) with
-      | some (e, _) => e
-      | none => indexStart % 4294967296   -- `.unwrap_or(index_start as u32)`
-    (s, e)
+    -- `.unwrap_or(index_start as u32)`
+    (s, endOffset (readLE 4 (index.drop ((pos + 1) * 4))) (indexStart % 4294967296))
 
 /-- `get_document_bytes_from_block` (`block.slice(range)` panics on a range outside the block) -/
 def docFromBlock (block : Bytes) (pos : Nat) : Option Bytes :=
